@@ -101,6 +101,15 @@ CLAIMS = {
             "writes nothing on an exceptional exit; get_code builds the generator with every option and contains every part. "
             "Bounded stand-in runs `python -m gotranx` in scratch directories.",
             "typer parsing and exit status assumed; read_config body not under contract"),
+    "C19": ("proof", "Proved: every generator refuses (ReservedNameError) a model in which a state, parameter or intermediate has a name for which "
+            "is_reserved_name holds - _check_reserved_names filters exactly those names (comprehension lemma + induction lemma: an empty clash list "
+            "means no reserved name at any index) and __init__ calls it; is_reserved_name is membership in the class's reserved_names or the "
+            "_linearized suffix (JAX: also the _values_ prefix). Inventory (bounded instances / literals, the reserved sets and is_reserved_name "
+            "bodies being read and executed from the source): whatever the python / jax / C method templates add around their holes, the formals "
+            "and array names of all 6+24 argument orders, the shape prologue, the names listed in the property statement, the numerical library "
+            "roots and every name sympy's C printer can emit are reserved. Bounded stand-in: 65 identifiers x role x back end against the renamed model.",
+            "language keywords are renamed by sympy's printers (reserved_words + '_'): assumed, checked only by the bounded stand-in; the inventory is "
+            "by instance, not a proof that no other identifier can ever be emitted; a model that uses both k and k_ for a keyword k is not covered"),
     "C20": ("proof", "Proved: states_matrix lists symbols of sorted_states (same order as state_index); rhs_matrix returns for every acyclic model "
             "(no RuntimeError for any depth: loop variant), with every intermediate and every referenced state derivative expanded, obtained "
             "from the derivative expressions by xreplace passes; jacobi_matrix is jacobian(rhs_matrix, states_matrix).",
@@ -110,8 +119,6 @@ CLAIMS = {
 NOT_APPLICABLE = {
     "C15": "Myokit's evaluator and its sympy writer are outside every contract within reach: the dynamics clause cannot be expressed as a contract "
            "on gotranx code; only a bounded comparison exists (replay/oracles/c15.py), which is not claimed as a check of this family",
-    "C19": "no contract within reach decides it: the obligation `every model name is disjoint from the names the back end uses` has no "
-           "implementing code (nothing in gotranx checks or renames identifiers), so every instance is a known finding rather than a discharged obligation",
 }
 
 
